@@ -1,9 +1,13 @@
 use crate::eng::Tier;
 pub mod c09;
+pub mod c11;
+pub mod c12;
 
 pub fn run(prop: &str, tier: Tier, seed: u64) {
     match prop {
         "C09" => c09::run(tier, seed),
+        "C11" => c11::run(tier, seed),
+        "C12" => c12::run(tier, seed),
         _ => crate::eng::inconclusive(&format!("no E1 harness for {}", prop)),
     }
 }
